@@ -1,4 +1,5 @@
 import PcfgVerif.Properties.ExpandCore
+import PcfgVerif.Lemmas.ExpandCount
 /-!
 # C04 — a pre-terminal expands to exactly the product of its terminal groups
 
@@ -21,6 +22,19 @@ theorem C04_expand (upper : Char → List Char) (g : EGrammar) (omen : Nat → O
 /-- a Markov pre-terminal expands to exactly the strings of its OMEN level, in generator order
 (`Omen.level_exact` says which strings these are), and the count is their number -/
 theorem C04_markov (gs : List Str) : omenLoop gs none = ⟨gs, gs.length, false⟩ := omenLoop_none gs
+
+/-- **how many guesses a pre-terminal has**: the product of the sizes of its chosen groups (one factor per position, a mask group counting
+its masks) - so the list of `C04_expand` holds every combination of one value per position one time and leaves none out; with
+`C04_expand` this is also the number `create_guesses` returns -/
+theorem C04_count_is_product_of_group_sizes (upper : Char → List Char) (g : EGrammar) (omen : Nat → Option (List Str))
+    (pt : PT) (hpt : pt ≠ []) (hok : okSpec upper g [] pt = true) :
+    (createGuesses upper g omen pt none).count = (groupSizes g pt).foldr (· * ·) 1 ∧
+    (createGuesses upper g omen pt none).out.length = (groupSizes g pt).foldr (· * ·) 1 := by
+  rw [C04_expand upper g omen pt hpt hok]
+  exact ⟨productSpec_length upper g pt [] hok, productSpec_length upper g pt [] hok⟩
+
+/-- non-vacuity: two words, two masks, two digits: 2 x 2 x 2 -/
+example : groupSizes ExpandExample.gr ExpandExample.pt0 = [2, 2, 2] := by decide
 
 /-- every pre-terminal produces at least one guess -/
 theorem C04_nonempty (upper : Char → List Char) (g : EGrammar) (pt : PT)
